@@ -255,6 +255,10 @@ def opspecs(form, fields):
                 used.add(fld)
             elif re.fullmatch(r"#(\d+)", d):
                 spec = "(.immConst %s)" % d[1:]
+            elif d in ("#immr", "#imms") and d[1:] in fnames and imm_attr in ("ImmBFM", ""):
+                # SBFM/BFM/UBFM: plain fields (the ImmBFM attribute of the database only states the range 0..size-1)
+                spec = "(.immU %s 1)" % q(d[1:])
+                used.add(d[1:])
             elif re.fullmatch(r"#([A-Za-z_0-9]+)", d) and d[1:] in fnames and not imm_attr and d[1:] not in ("n", "sysreg"):
                 fld = d[1:]
                 if fld.endswith("S") and fld.startswith("imm"):
